@@ -33,7 +33,12 @@ def doc_string_lines(rc, spec, steps, i, delim, mt, opener_pad, closer, empty):
     pool = [title("feature", "x"), title("scenario", "x"), title("examples", "x"), title("rule", "x"), title("background", "x"),
             "@tag here", "@bad tag", "# comment", "#language: fr", "# language: zz", "| a | b |", "| ragged |", kw() + "x", "* x",
             '\\"\\"\\"', "\\`\\`\\`", other, other + "json", "x" + delim, "", " ", "\t", "   ", '\\"\\"\\" and \\"\\"\\"', "\\", "<a>",
-            "\\`\\`\\` and \\`\\`\\`", 'mixed \\"\\"\\" \\`\\`\\`']
+            "\\`\\`\\` and \\`\\`\\`", 'mixed \\"\\"\\" \\`\\`\\`',
+            # look-alikes of the delimiters (full-width, typographic, Greek, primes, two instead of three) and delimiters behind
+            # an invisible character: all of it is content
+            "\uff02\uff02\uff02", "\uff40\uff40\uff40", "\u1fef\u1fef\u1fef", "\u201d\u201d\u201d", "\u201c\u201c\u201d", "'''", '""', '" " "', "``",
+            "\u00b4\u00b4\u00b4", "\u02ba\u02ba\u02ba", "\u2033\u2033\u2033", "\ufeff" + delim, "\u200b" + delim, "\u200f" + delim, "\u2060" + other,
+            "\ufeff", "\ufefftext after a byte order mark", "\u200btext"]
     lines = [i + delim + opener_pad[0] + mt + opener_pad[1]]
     content = []
     n = 0 if empty else rc.choice([0, 1, 2, 3, 5, 8, 30]) if rc.random() < 0.3 else rc.randint(0, 6)
@@ -42,7 +47,7 @@ def doc_string_lines(rc, spec, steps, i, delim, mt, opener_pad, closer, empty):
         if c < 0.7:
             body = rc.choice(pool)
         else:
-            body = "".join(rc.choice(["a", " ", "é", "\U0001F600", "|", "@", "#", '"', "`", "\\", ":", "\t", "　", "\x0b"]) for _ in range(rc.randint(0, 10)))
+            body = "".join(rc.choice(["a", " ", "é", "\U0001F600", "|", "@", "#", '"', "`", "\\", ":", "\t", "\u3000", "\x0b", "\ufeff", "\u200b", "\uff02", "\u2028", "\x85", "\x1c"]) for _ in range(rc.randint(0, 10)))
         rel = rc.choice(["same", "more", "less"])
         if rel == "same":
             li = i
